@@ -16,21 +16,20 @@ SLASH == 47
 (* ---- method / status ----------------------------------------------------- *)
 GetMethod(m) == IF \E r \in MethodRows : r[1] = m.code THEN NameOf(MethodRows, m.code) ELSE "UnKnown"
 GetStatus(m) == IF \E r \in ResponseRows : r[1] = m.code THEN NameOf(ResponseRows, m.code) ELSE "UnKnown"
-SetMethod(m, name) == [m EXCEPT !.code = IF name = "UnKnown" THEN 255 ELSE NumOf(MethodRows, name)]
-SetStatus(m, name) == [m EXCEPT !.code = IF name = "UnKnown" THEN 255 ELSE NumOf(ResponseRows, name)]
+SetMethod(m, name) == [m EXCEPT !.code = NumOf(MethodRows, name)]
+SetStatus(m, name) == [m EXCEPT !.code = NumOf(ResponseRows, name)]
 
 \* The stored code is an enum value, of which the message record keeps the byte.  Besides the 256 values a
 \* byte decodes to ("canon") the API can store the catch-all method and status (byte 255) and a Reserved
 \* value carrying the byte of a named code.  The form is tracked next to the message where it matters
-\* (Trace_Views): the getters report UnKnown for every non-canonical form, the generic views hand out the
-\* stored value itself, a copy through a byte (Code::new / try_from) is canonical, a same-type copy keeps it.
+\* (Trace_Views): the getters report UnKnown for a non-canonical form (or what its byte says: not pinned), the
+\* generic views hand out the stored value itself, a copy through a byte (Code::new / try_from) is canonical,
+\* a same-type copy keeps it.
 CodeForms == { "canon", "Request(UnKnown)", "Response(UnKnown)", "Reserved" }
 GetMethodF(m, form) == IF form = "canon" THEN GetMethod(m) ELSE "UnKnown"
 GetStatusF(m, form) == IF form = "canon" THEN GetStatus(m) ELSE "UnKnown"
 FormAfter(form, c) ==
-  CASE c.f = "set_method" -> (IF c.a.name = "UnKnown" THEN "Request(UnKnown)" ELSE "canon")
-    [] c.f = "set_status" -> (IF c.a.name = "UnKnown" THEN "Response(UnKnown)" ELSE "canon")
-    [] c.f \in { "t_set_code", "set_code" } -> "canon"
+  CASE c.f \in { "set_method", "set_status", "t_set_code", "set_code" } -> "canon"      \* with a named value / a code made from a byte
     [] OTHER -> form
 
 (* ---- Uri-Path ------------------------------------------------------------- *)
